@@ -1,10 +1,10 @@
 (* C02 - Linearization preserves objective values and optima.  Statements, `exact`, Print Assumptions only.
    STATUS: proved end to end for the affine fragment (C02_objective_affine, C02_optimum_affine: through the whole of
    `compile` the linear objective equals the source objective at every assignment, so optimal points and values
-   coincide) and for the arithmetic-with-abs fragment (C02_objective_abs: exactly the statement below; C02_optimum_abs:
+   coincide) and for the arithmetic fragment with abs, min and max (C02_objective_abs: exactly the statement below; C02_optimum_abs:
    an optimal point of the compiled model is feasible and optimal for the source with the same value - under a
-   minimised abs the linear objective only over-estimates, and the optimum is where the two meet); for models with min,
-   max or logic nodes the target statement is kept visible and the proved parts are *_partial. *)
+   minimised abs or max the linear objective only over-estimates, and the optimum is where the two meet); for models with
+   logic nodes or pruned min / max operands the target statement is kept visible and the proved parts are *_partial. *)
 From Coq Require Import QArith Reals List String.
 From Rooc Require Import Base.XQ Model.Exp Model.Sem Model.Bounds Model.Linearize Model.Spec
   Proof.PublishedCompile Proof.LinAffine Proof.ArmLemmas Proof.CompileAffine Proof.CompileAbs.
@@ -43,7 +43,7 @@ Proof.
     rewrite <- (Ob rho v Ev), <- (Ob rho' v' Ev'). apply Best. apply Eq. exact S'.
 Qed.
 
-(* ---- proved end to end on the arithmetic-with-abs fragment (premises: Props/C01.v, abs_model): the full statement *)
+(* ---- proved end to end on the arithmetic fragment with abs, min and max (premises: Props/C01.v, abs_model): the full statement *)
 Theorem C02_objective_abs :
   forall (m : model) (L : linmodel), abs_model m -> compile m = inr L ->
     forall rho v, sat_model m rho -> ev rho (m_obj m) = Some v ->
